@@ -409,7 +409,7 @@ def check_queries(x, case, tag, sig, P, off, pos, rev, st, fdict, extra_kw=None)
     return ("ok", nontrivial)
 
 
-def run_history(x, hist, P, tag, case, apply):
+def run_history(x, hist, P, tag, case, apply, nonempty_db=True):
     """apply the history to the real object and to the model; returns (x, pos, rev, st, None) or (.., fail tuple)"""
     pos, rev, st = view_root(P)
     done = []
@@ -427,7 +427,7 @@ def run_history(x, hist, P, tag, case, apply):
                                      f"{type(e).__name__}: {e}")
         pos, rev, st = pos2, rev2, st2
         db = getattr(x, "annotation_db", None)
-        if db is None or len(db) == 0:
+        if db is None or (nonempty_db and len(db) == 0):
             return x, pos, rev, st, ("fail", f"{tag}/history/{op_kind(op)}/annotations-dropped",
                                      f"{case}: after history step {op} the view {display(P, pos, rev)!r} has no "
                                      f"annotations any more (annotation_db={db!r}), so no feature that it displays "
@@ -467,7 +467,128 @@ def _contract_seq(case):
     return check_queries(x, case, tag, sig, P, off, pos, rev, st, {f[0]: f for f in feats})
 
 
+# ================================================================================================ add_feature on a view
+def gen_addview(tier, seed):
+    """[new, root, h1, spans (view coordinates), strand (relative to the view), h2]"""
+    rnd = random.Random(seed)
+    thorough = tier == "thorough"
+    for new in (False, True):
+        for rid in ("p10", "p7o3"):
+            P, off = SEQ_ROOTS[rid]
+            L = len(P)
+            h1s = [[]] + [[["s", a, b, None]] for a in range(L) for b in range(a + 1, L + 1)] + [[["rc"]], [["cp"]]]
+            mids = [["s", 1, L - 1, None], ["s", 2, L, None], ["s", 0, L - 3, None]]
+            h1s += [[o, ["rc"]] for o in mids] + [[["rc"], o] for o in mids] + [[o, ["s", 1, None, None]] for o in mids]
+            if not thorough:
+                h1s = [h for h in h1s if len(h) != 1 or h[0][0] != "s" or (h[0][2] - h[0][1]) in (1, 2, 4, L - 1, L)]
+            for h1 in h1s:
+                pos, rev, st = view_root(P)
+                for o in h1:
+                    pos, rev, st = view_apply(P, pos, rev, st, o)
+                m = len(pos)
+                spanlist = [[[u, v]] for u in range(m) for v in range(u + 1, m + 1)]
+                if not thorough and len(spanlist) > 6:
+                    spanlist = [[[0, 1]], [[0, m]], [[1, 3]], [[m - 2, m]], [[1, m - 1]], [[m - 1, m]]]
+                if m >= 4:
+                    spanlist += [[[0, 1], [2, 4]], [[0, 2], [m - 1, m]]]
+                h2s = [[], [["rc"]], [["s", 1, None, None]], [["s", None, m - 1, None]], [["cp"]]]
+                for spans in spanlist:
+                    for strand in "+-":
+                        for h2 in h2s:
+                            yield [new, rid, h1, spans, strand, h2]
+
+
+def contract_addview(case):
+    """view.add_feature(spans in view coordinates) returns a feature that slices to those residues of the view, and
+    the same residues are denoted when the view (or a further view, or the root) is queried afterwards"""
+    from cogent3 import make_seq
+    new, rid, h1, spans, strand, h2 = case
+    P, off = SEQ_ROOTS[rid]
+    tag = f"addview/{'new' if new else 'old'}" + ("/offset" if off else "")
+    kw = {"annotation_offset": off} if off else {}
+    root = make_seq(P, name="s", moltype="dna", new_type=new, **kw)
+    x, pos, rev, st, bad = run_history(root, h1, P, tag, case, real_seq_apply, nonempty_db=False)
+    if bad:
+        return ("skip",)       # histories that fail without any added feature are seq_views' business
+    if str(x) != display(P, pos, rev):
+        return ("skip",)
+    sig1 = view_sig(P, pos, rev, st, h1)
+    # spec: the feature is the set of root positions under the given view coordinates; its absolute strand flips
+    # on a reverse-complemented view
+    F = sorted({pos[i] for a, b in spans for i in range(a, b)})
+    abs_strand = strand if not rev else ("-" if strand == "+" else "+")
+    plus = "".join(P[i] for i in F)
+    expected_all = rc_str(plus) if abs_strand == "-" else plus
+    kind = f"{len(spans)}span{strand}"
+    try:
+        f0 = x.add_feature(biotype="gene", name="new", spans=[list(sp) for sp in spans], strand=strand)
+    except Exception as e:
+        return ("fail", f"{tag}/add_feature/raises:{type(e).__name__}/{kind}/view={sig1}",
+                f"{case}: add_feature(spans={spans}, strand={strand!r}) on view {display(P, pos, rev)!r} raised "
+                f"{type(e).__name__}: {e}")
+    try:
+        got = str(f0.get_slice())
+    except Exception as e:
+        return ("fail", f"{tag}/returned-feature/get_slice/raises:{type(e).__name__}/{kind}/view={sig1}",
+                f"{case}: get_slice() of the feature returned by add_feature raised {type(e).__name__}: {e}")
+    if got != expected_all:
+        return ("fail", f"{tag}/returned-feature/get_slice/residues/{kind}/view={sig1}",
+                f"{case}: feature added at {spans}{strand} of view {display(P, pos, rev)!r} slices to {got!r}, "
+                f"expected {expected_all!r}")
+    # now look at it again: from the same view, from a further view, from the root
+    targets = [("same-view", x, pos, rev, st, h1)]
+    y, pos2, rev2, st2, bad = run_history(x, h2, P, tag, case, real_seq_apply)
+    # run_history starts from the root model: redo the model part for h2 on top of h1
+    pos2, rev2, st2 = pos, rev, st
+    for o in h2:
+        pos2, rev2, st2 = view_apply(P, pos2, rev2, st2, o)
+    if h2 and not bad and str(y) == display(P, pos2, rev2):
+        targets.append(("later-view", y, pos2, rev2, st2, h1 + h2))
+    if h1:
+        targets.append(("root", root, *view_root(P), []))
+    for where, v, vpos, vrev, vst, vh in targets:
+        retained = set(vpos)
+        keep = [i for i in F if i in retained]
+        exp = "".join(P[i] for i in keep)
+        exp = rc_str(exp) if abs_strand == "-" else exp
+        ctx = f"{case}: feature added at {spans}{strand} of view {display(P, pos, rev)!r} (root positions {F}, " \
+              f"absolute strand {abs_strand}); {where} {display(P, vpos, vrev)!r}.get_features(allow_partial=True)"
+        state = "all" if len(keep) == len(F) else ("part" if keep else "none")
+        try:
+            fs = [f for f in v.get_features(allow_partial=True)]
+        except Exception as e:
+            return ("fail", f"{tag}/requery/{where}/raises:{type(e).__name__}/{kind}:{state}/view={sig1}",
+                    f"{ctx} raised {type(e).__name__}: {e}")
+        if len(fs) > 1:
+            return ("fail", f"{tag}/requery/{where}/duplicates/{kind}/view={sig1}", f"{ctx} returned {len(fs)} features")
+        if not fs:
+            if keep:
+                return ("fail", f"{tag}/requery/{where}/missing/{kind}:{state}/view={sig1}",
+                        f"{ctx} returned nothing; the feature's residues {exp!r} are displayed")
+            continue
+        try:
+            got = str(fs[0].get_slice())
+        except Exception as e:
+            return ("fail", f"{tag}/requery/{where}/get_slice/raises:{type(e).__name__}/{kind}:{state}/view={sig1}",
+                    f"{ctx}: get_slice() raised {type(e).__name__}: {e}")
+        if got != exp:
+            return ("fail", f"{tag}/requery/{where}/residues/{kind}:{state}/view={sig1}",
+                    f"{ctx}: the feature now slices to {got!r} (map {fs[0].map}), expected {exp!r}")
+    return ("ok", True)
+
+
 BOUNDED = {
+    "seq_add_on_view": {
+        "gen": gen_addview, "contract": contract_addview,
+        "functions": ["Sequence.add_feature", "Sequence.make_feature", "Sequence.get_features", "Feature.get_slice",
+                      "BasicAnnotationDb.add_feature -- old and new sequence types"],
+        "bound": "roots ACGGTTACGA (offset 0) and CGTTAGC (annotation offset 3); the view the feature is added to: root, "
+                 "every step-1 slice, rc, copy, slice+rc, rc+slice, slice+slice; added spans: every single span of the "
+                 "view (quick: 6 of them) and two 2-span features, both strands; then re-queried from the same view, "
+                 "from a later view (rc, two slices, copy) and from the root",
+        "rule": "a case = (type, root, history of the receiving view, spans in view coordinates, strand, later history); "
+                "always non-trivial (the added feature is non-empty)",
+    },
     "seq_views": {
         "gen": gen_seq, "contract": contract_seq,
         "functions": ["Sequence.get_features", "Sequence.make_feature", "Sequence.__getitem__ (slice, Feature)",
